@@ -291,6 +291,16 @@ impl Parser for Markdown {
         Self::remove_hidden_wikilink_tokens(&mut tokens);
         Self::remove_wikilink_brackets(&mut tokens);
 
+        // Event ranges do not always match the text they stand for (tab expansion): no token may
+        // reach past the end of the source.
+        tokens.retain_mut(|token| {
+            let was_empty = token.span.is_empty();
+            token.span.end = token.span.end.min(source.len());
+            token.span.start = token.span.start.min(token.span.end);
+            // A token that lay entirely past the end covers nothing: drop it.
+            was_empty || !token.span.is_empty()
+        });
+
         tokens
     }
 }
